@@ -216,6 +216,8 @@ def run(chk):
                 def term(x):
                     # in a script an expression continues on the next line unless it is terminated
                     x = x.rstrip()
+                    if x.endswith("}") and (x.startswith("if ") or x.startswith("match ")):
+                        return x + ";"     # an if / match statement is an expression: `[` or `(` on the next line would continue it
                     return x if x.endswith(";") or x.endswith("}") else x + ";"
                 prog = "\n".join([term(a) for a in accepted] + [logical]) + "\n"
                 ro = core.run_binary(["-c", prog], release=rel, timeout=30)
